@@ -78,7 +78,7 @@ func quotaSession(r *rig.Rig, client interface {
 }
 
 func runC19(r *vh.Run) {
-	r.Rep.Rule = "real server with users with and without quotas on simnet (virtual time): sessions moving traffic just below / above the allowance, then new sessions of the exceeding user and of other users; per-user upload/download counters compared with the bytes the server application really read and wrote. distinct_nontrivial = distinct (transport, user class, below/above, phase) tuples"
+	r.Rep.Rule = "real server with users with and without quotas on simnet (virtual time): sessions moving traffic just below / above the allowance, then new sessions of the exceeding user and of other users; per-user upload/download counters compared with the bytes the server application really read and wrote; then (c19acct.go) one user's stream consumed by the server application with read buffers of 1, 7, 100, 333, 500, 999, 1000, 4096, 32768 bytes against client writes around the open-request payload limit, the MTU fragment and the 32 KiB PDU, and produced in writes of the same sizes, the counters compared after every single Read and Write, a 1 MiB/day user read in 500-byte pieces refused on the next session; then reload histories through Mux.SetServerUsers(UserListToMap(..)): only quotas lowered / raised / unchanged / removed / second quota added, and quotas changed together with a new user, each decided on a fresh underlay. distinct_nontrivial = distinct (transport, user class, below/above, phase) tuples"
 	for _, tr := range []string{"tcp", "udp"} {
 		tag := fmt.Sprintf("%s%d", tr, r.Seed)
 		limited, free, other := "lim"+tag, "free"+tag, "oth"+tag
@@ -166,6 +166,9 @@ func runC19(r *vh.Run) {
 		cFree.Close()
 		cOther.Close()
 		rg.Close()
+		// c19acct.go: the stream cut into reads/writes of every size; reload histories
+		runC19Accounting(r, tr)
+		runC19Reload(r, tr)
 	}
 }
 
